@@ -30,6 +30,14 @@ theorem agreement_inv_tx_partial (p : Core.Params) (txs : List (List Op)) (h1 : 
   rw [runTx_single txs (init p) h1]
   exact agreement_inv p txs.flatten hs
 
+/-- **agreement_inv_checked** — `agreement_inv` with the side condition in its executable form: if the coverage check
+    `coveredB` (every descriptor of M-LC lies in a state info of M-Core) holds in every state along the run — the driver
+    evaluates it after every op of every correspondence trace — then the agreement invariant holds at the end. -/
+theorem agreement_inv_checked (p : Core.Params) (ops : List Op) (hc : CoveredRun (init p) ops) : AgreeInv (run (init p) ops) :=
+  agreement_inv p ops (safeRun_of_covered ops (init p) hc)
+
+example : coveredB sA = true := by decide
+
 /-- the designation theorems carry over to single-message transaction histories in the same way -/
 theorem designation_tx_partial (p : Core.Params) (txs : List (List Op)) (h1 : SingleMsg txs) :
     MapsInv (runTx (init p) txs) := by
